@@ -39,6 +39,99 @@ const FRESH: (&str, &str) = ("zq9", "zq8");
 fn program(mi: usize, b: (&str, &str), ai: usize, si: usize) -> String {
     format!("fn w(x) {{\n  x * 10.0\n}}\n#stage(macro)\n{}#stage(main)\nlet g = 50.0\n{}", MACROS[mi].0.replace("@B@", b.0).replace("@C@", b.1), SITES[si].0.replace("@A@", ARGS[ai]))
 }
+// ---------------------------------------------------------------- macros defined inside a module
+// The macro lives in `mod m` (or in `mod m { mod n { .. } }`), next to members whose names the binders of its quoted
+// code are then given: a sibling function, the macro itself, the module, a root-level function, dsp.
+const MOD_BODIES: [(&str, &str); 6] = [
+    ("`{\n      let @B@ = |a| a * 2.0\n      @B@($e)\n    }", "let-bound function"),
+    ("`{\n      let @B@ = 10.0\n      $e + @B@\n    }", "let-bound number"),
+    ("`{\n      let f = |@B@| $e + @B@\n      f(10.0)\n    }", "lambda parameter"),
+    ("`{\n      letrec @B@ = |n| if (n > 0.0) @B@(n - 1.0) else 10.0\n      $e + @B@(2.0)\n    }", "letrec binder"),
+    ("`{\n      let (@B@, other) = (10.0, 20.0)\n      $e + @B@ + other\n    }", "tuple pattern"),
+    ("`{\n      let first = $e\n      let @B@ = |a| a + first\n      @B@(1.0) + scale(0.0)\n    }", "let-bound function next to a use of the sibling member"),
+];
+const MOD_NAMES: [&str; 6] = ["scale", "mk", "m", "w", "dsp", "up"];
+const MOD_ARGS: [&str; 3] = ["`x", "`1.0", "`(w(x))"];
+fn n_mod() -> u64 {
+    (MOD_BODIES.len() * MOD_NAMES.len() * MOD_ARGS.len() * 2) as u64
+}
+fn mod_program(bi: usize, name: &str, ai: usize, nested: bool) -> String {
+    let body = MOD_BODIES[bi].0.replace("@B@", name);
+    if nested {
+        // `up` is a member of the parent module m, `scale` of the macro's own module n
+        format!(
+            "fn w(x) {{\n  x * 10.0\n}}\nmod m {{\n  pub fn up(a) {{\n    a * 1000.0\n  }}\n  pub mod n {{\n    pub fn scale(a) {{\n      a * 100.0\n    }}\n    #stage(macro)\n    pub fn mk(e) {{\n    {body}\n    }}\n  }}\n}}\nfn dsp(x) {{\n  m::n::mk!({}) + m::n::scale(0.0) + m::up(0.0)\n}}\n",
+            MOD_ARGS[ai]
+        )
+    } else {
+        format!(
+            "fn w(x) {{\n  x * 10.0\n}}\nmod m {{\n  pub fn up(a) {{\n    a * 1000.0\n  }}\n  pub fn scale(a) {{\n    a * 100.0\n  }}\n  #stage(macro)\n  pub fn mk(e) {{\n    {body}\n  }}\n}}\nfn dsp(x) {{\n  m::mk!({}) + m::scale(0.0) + m::up(0.0)\n}}\n",
+            MOD_ARGS[ai]
+        )
+    }
+}
+fn mod_decode(k: u64) -> (usize, usize, usize, bool) {
+    let mut i = k;
+    let nested = i % 2 == 1;
+    i /= 2;
+    let ni = (i % MOD_NAMES.len() as u64) as usize;
+    i /= MOD_NAMES.len() as u64;
+    let ai = (i % MOD_ARGS.len() as u64) as usize;
+    i /= MOD_ARGS.len() as u64;
+    (i as usize, ni, ai, nested)
+}
+fn compare(tier: Tier, orig: &str, renamed: &str, what: &str, fails: &mut Vec<Fail>) -> (String, bool) {
+    let mut outcome = "same".to_string();
+    let mut ran = false;
+    let backends: &[Backend] = if tier == Tier::Thorough { &[Backend::Vm, Backend::Wasm] } else { &[Backend::Vm] };
+    for &b in backends {
+        let inp = |t: usize| vec![stream(0, t)];
+        let a = full_run(b, orig, false, 4, &inp, false).map(|f| f.out);
+        let c = full_run(b, renamed, false, 4, &inp, false).map(|f| f.out);
+        match (&a, &c) {
+            (Ok(x), Ok(y)) => {
+                ran = true;
+                if let Some((_, d)) = first_diff(x, y, bits_eq) {
+                    outcome = "differs".into();
+                    fails.push(Fail { clause: format!("{}_meaning_changed_by_renaming_macro_binder", b.name()), detail: format!("{what}: {d} (original vs renamed)") });
+                }
+            }
+            (Err(RunErr::Compile(_)), Err(RunErr::Compile(_))) => outcome = "both_rejected".into(),
+            (Err(RunErr::Crash(_)), Err(RunErr::Crash(_))) => outcome = "both_crash".into(),
+            _ => {
+                outcome = "differs".into();
+                let lab = |r: &Result<Vec<Vec<f64>>, RunErr>| match r {
+                    Ok(_) => "runs".to_string(),
+                    Err(RunErr::Compile(e)) => format!("rejected ({})", e.join(" | ").chars().take(120).collect::<String>()),
+                    Err(RunErr::Crash(m)) => format!("crashes ({})", m.chars().take(120).collect::<String>()),
+                };
+                fails.push(Fail { clause: format!("{}_acceptance_changed_by_renaming_macro_binder", b.name()), detail: format!("{what}: original {} / renamed {}", lab(&a), lab(&c)) });
+            }
+        }
+    }
+    (outcome, ran)
+}
+fn run_mod_case(tier: Tier, k: u64) -> CaseOut {
+    let (bi, ni, ai, nested) = mod_decode(k);
+    if MOD_BODIES[bi].0.replace("@B@", "").contains(&format!("{}(", MOD_NAMES[ni])) {
+        // the body itself uses the name freely: binding it there is a genuine shadowing, not an alpha-variant
+        return CaseOut { key: k, nontrivial: false, outcome: "not_an_alpha_variant".into(), ..Default::default() };
+    }
+    let orig = mod_program(bi, MOD_NAMES[ni], ai, nested);
+    let renamed = mod_program(bi, FRESH.0, ai, nested);
+    let what = format!("macro in {} with a {} named `{}`, argument {}", if nested { "m::n" } else { "m" }, MOD_BODIES[bi].1, MOD_NAMES[ni], MOD_ARGS[ai]);
+    let mut fails = vec![];
+    let (outcome, ran) = compare(tier, &orig, &renamed, &what, &mut fails);
+    let mut tags = vec!["macro_in_module".to_string(), format!("macro:{}", MOD_BODIES[bi].1), format!("binder_named:{}", MOD_NAMES[ni])];
+    if nested {
+        tags.push("macro_in_nested_module".into());
+    }
+    if MOD_ARGS[ai].contains(MOD_NAMES[ni]) {
+        tags.push("argument_mentions_a_name_bound_in_the_macro_body".into());
+    }
+    CaseOut { key: fnv(orig.as_bytes()), nontrivial: ran, outcome, fails, tags, repr: json!({"what": what, "original_source": orig, "renamed_source": renamed}), counters: vec![("macro_in_module".into(), 1)] }
+}
+
 fn decode(idx: u64) -> (usize, usize, usize, usize) {
     let mut i = idx;
     let bi = (i % BINDERS.len() as u64) as usize;
@@ -50,17 +143,23 @@ fn decode(idx: u64) -> (usize, usize, usize, usize) {
     (i as usize, bi, ai, si)
 }
 
+fn n_plain() -> u64 {
+    (MACROS.len() * BINDERS.len() * ARGS.len() * SITES.len()) as u64
+}
 impl Prop for C10 {
     fn id(&self) -> &'static str {
         "C10"
     }
     fn n_cases(&self, _tier: Tier) -> u64 {
-        (MACROS.len() * BINDERS.len() * ARGS.len() * SITES.len()) as u64
+        n_plain() + n_mod()
     }
     fn chunk(&self, _t: Tier) -> u64 {
         16
     }
     fn run_case(&self, tier: Tier, idx: u64) -> CaseOut {
+        if idx >= n_plain() {
+            return run_mod_case(tier, idx - n_plain());
+        }
         let (mi, bi, ai, si) = decode(idx);
         if mi == 4 && bi == 1 {
             // a macro-stage `let e` would genuinely shadow the macro's own parameter: not an alpha-variant
@@ -121,6 +220,10 @@ impl Prop for C10 {
         }
     }
     fn describe_case(&self, _tier: Tier, idx: u64) -> (Value, Vec<String>) {
+        if idx >= n_plain() {
+            let (bi, ni, ai, nested) = mod_decode(idx - n_plain());
+            return (json!({"original_source": mod_program(bi, MOD_NAMES[ni], ai, nested)}), vec!["macro_in_module".into()]);
+        }
         let (mi, bi, ai, si) = decode(idx);
         (json!({"original_source": program(mi, BINDERS[bi], ai, si)}), vec![])
     }
